@@ -42,6 +42,8 @@ type EnumCase struct {
 	// ClosingComment: a comment follows the closing bracket; which item (if any) it is attached
 	// to is not stated, so the last item's comment is not compared
 	ClosingComment bool `json:"comment_after_closing_bracket,omitempty"`
+	// Early: which call a schema saw before its rule was added (0 Check, 1 UsedUserTypes, 2 AddType)
+	Early int `json:"call_before_the_rule_was_added,omitempty"`
 }
 
 type RegexCase struct {
@@ -153,6 +155,15 @@ func checkEnum(t run.TB, c EnumCase) (dup bool) {
 			run.Fail(t, chkEnum, c, "Values()[%d] comment %q, the item's comment is %q", i, lits[i].Comment, it.Comment)
 		}
 	}
+	valsText := fmt.Sprint(vals)
+	// what Values() hands out is the caller's: writing into it must not reach the rule
+	if scr, err := e.Values(); err == nil {
+		for i := range scr {
+			for k := range scr[i].Value {
+				scr[i].Value[k] = '7'
+			}
+		}
+	}
 	ast, aerr := e.GetAST()
 	if aerr != nil {
 		run.Fail(t, chkEnum, c, "GetAST fails on a checked rule: %v", aerr)
@@ -193,8 +204,8 @@ func checkEnum(t run.TB, c EnumCase) (dup bool) {
 	b := js.New("b", "[\n  "+ex+", // {enum: "+inl+"}\n  "+ex+" // {enum: "+inl+"}\n]")
 	ca, cb := lib.Check(a), lib.Check(b)
 	// using the rule must not change what it lists
-	if vals2, err := e.Values(); err != nil || fmt.Sprint(vals2) != fmt.Sprint(vals) {
-		run.Fail(t, chkEnum, c, "Values() changed after the rule was used by a schema: before %v, after %v (err %v)", vals, vals2, err)
+	if vals2, err := e.Values(); err != nil || fmt.Sprint(vals2) != valsText {
+		run.Fail(t, chkEnum, c, "Values() changed after the rule was used by a schema (and after an earlier result of Values() was overwritten by the caller): before %v, after %v (err %v)", valsText, vals2, err)
 	}
 	// a second schema sharing the rule object behaves the same
 	a2 := js.New("a2", ex+" // {enum: @E}")
@@ -203,6 +214,27 @@ func checkEnum(t run.TB, c EnumCase) (dup bool) {
 	}
 	if r := lib.Check(a2); !r.OK {
 		run.Fail(t, chkEnum, c, "a second schema using the same rule object is rejected: %v", r)
+	}
+	// a schema that was looked at before its rule arrived: AddRule either refuses the late rule or
+	// the schema uses it - a rule that was taken (nil) and is then "not found" is neither
+	a3 := js.New("a3", ex+" // {enum: @E}")
+	early := c.Early % 3
+	switch early {
+	case 0:
+		lib.Check(a3)
+	case 1:
+		lib.Used(a3)
+	case 2:
+		safe(func() error { return a3.AddType("@unused", js.New("@unused", "1")) })
+	}
+	if err, p := safe(func() error { return a3.AddRule("@E", e) }); p != nil {
+		run.Fail(t, chkEnum, c, "AddRule after an earlier call panicked: %v", p)
+	} else if err == nil {
+		if r := lib.Check(js.New("fresh", ex+" // {enum: "+inl+"}")); r.OK {
+			if r3 := lib.Check(a3); !r3.OK {
+				run.Fail(t, chkEnum, c, "AddRule returned nil after an earlier call (kind %d) on the schema, but the schema does not use the rule: Check = %v", early, r3)
+			}
+		}
 	}
 	if ca.OK != cb.OK {
 		run.Fail(t, chkEnum, c, "Check differs: named rule %v, inline list %v", ca, cb)
@@ -244,6 +276,23 @@ func TestNamedEnum(t *testing.T) {
 		{Kind: ref.KNumber, Tok: "1.50"}, {Kind: ref.KNumber, Tok: "0"}, {Kind: ref.KNumber, Tok: "-0"}, {Kind: ref.KNumber, Tok: "0.250"}, {Kind: ref.KNumber, Tok: "-2.0"},
 	}
 	rapid.Check(t, func(t *rapid.T) {
+		if rapid.IntRange(0, 24).Draw(t, "noList") == 0 {
+			// rule texts that hold no value list, or a list followed by a lone slash: the inline
+			// spellings ({enum: }, {enum: [1, 2] /}) are refused, so must these be when the rule is checked
+			text := rapid.SampledFrom([]string{"", " \n\t", "// [1, 2]", "/* pets */", "// a\n// b", "/* a */ // b", "[1, 2] /", "[1, 2]/", "[]\n/"}).Draw(t, "noListText")
+			c := EnumCase{Text: text}
+			e := enum.New("@E", text)
+			err, p := safe(e.Check)
+			if p != nil {
+				run.Fail(t, chkEnum, c, "enum.Check panicked: %v", p)
+			}
+			if err == nil {
+				run.Fail(t, chkEnum, c, "the rule text %q is no value list, yet Check accepts it", text)
+			}
+			run.Eval(chkEnum, true, "no-list", text)
+			run.Label("enum:text-without-a-complete-list")
+			return
+		}
 		n := rapid.IntRange(0, 8).Draw(t, "n")
 		var items []Item
 		for i := 0; i < n; i++ {
@@ -324,7 +373,7 @@ func TestNamedEnum(t *testing.T) {
 		case 5:
 			b.WriteString("  ")
 		}
-		c := EnumCase{Text: b.String(), Items: items, LenFirst: rapid.IntRange(0, 2).Draw(t, "lenFirst") == 0,
+		c := EnumCase{Text: b.String(), Items: items, LenFirst: rapid.IntRange(0, 2).Draw(t, "lenFirst") == 0, Early: rapid.IntRange(0, 2).Draw(t, "early"),
 			ClosingComment: strings.Contains(b.String(), "closing note")}
 		for _, it := range pool {
 			c.Probes = append(c.Probes, it.Tok)
